@@ -110,6 +110,22 @@ for name in names:
         if others:
             reqs2 = [service(0, *t[0], include=[f'roadm {others[0]}'], strict=True)] + reqs[1:]
             run(reqs2, [sync(0, [0, 1])], f'{name}:with-include:{t}')
+    # identical requests that sit in several groups each: aggregation must leave every group with ids that exist
+    if name in ('spur5', 'mesh4', 'house5'):
+        (s_, d_) = ('A', 'D') if name != 'house5' else ('A', 'C')
+        others = [(x, y) for x, y in pairs if (x, y) != (s_, d_) and (y, x) != (s_, d_)][:3]
+        for (p1, p2) in itertools.combinations(others, 2):
+            reqs = [service('a', s_, d_), service('b', s_, d_), service('c', *p1), service('d', *p2)]
+            for groups in ([['a', 'c'], ['a', 'd'], ['b', 'c'], ['b', 'd']], [['a', 'c'], ['b', 'c'], ['a', 'd'], ['b', 'd']],
+                           [['a', 'c', 'd'], ['b', 'c', 'd']], [['c', 'a'], ['d', 'a'], ['c', 'b'], ['d', 'b']]):
+                key = f'{name}:identical-twins-in-groups:{p1}{p2}:{groups}'
+                try:
+                    run(reqs, [sync(k, g) for k, g in enumerate(groups)], key)
+                except ServiceError:
+                    pass
+                except Exception as e:
+                    cases += 1
+                    wit.append({'key': key, 'problems': [f'{type(e).__name__}: {e!r}'[:200]]})
     # a pair of synchronised requests, the first with a route list (1 - 3 hops, STRICT / LOOSE in every mix, sites that cannot be
     # crossed, names that do not exist, the end points named in the list): what is loaded, and what comes out
     if name not in ('spur5', 'mesh4'):
